@@ -23,6 +23,7 @@ open Wire Pen PenShow Gen
     qknap <capacity> <values> <weights> <profits>          profits: rows separated by ";", "-" = no rows
     qmknap <values> <weights> <capacities> <profits>
     kmcsat <k> <labels> <clauses>                          clauses: idx:sign+idx:sign+... separated by ','
+    qap <distance rows> <flow rows>
     msq <size> <power>                                     constraint expressions shown without self-loop folding
 -/
 
@@ -146,6 +147,13 @@ def answer (line : String) : String :=
       | some bag => showBag .spin bag
       | none => "err"
     | _, _, _ => "bad-op"
+  | ["qap", d, f] =>
+    match parseMatrix d, parseMatrix f with
+    | some d, some f =>
+      match quadraticAssignment d f with
+      | some q => showGCqm q
+      | none => "err"
+    | _, _ => "bad-op"
   | ["msq", n, power] =>
     match n.toNat?, power.toNat? with
     | some n, some power =>
